@@ -411,3 +411,34 @@ class IterVal(object):
     def __init__(self, items):
         self.items = items
         self.pos = 0
+
+
+class LazyVal(object):
+    """list element whose shape alternative (None or an object, ...) is chosen
+    only when the program first inspects it"""
+    def __init__(self, thunk, link=None):
+        self.thunk = thunk
+        self.forced = False
+        self.value = None
+        self.pristine = None
+        self.link = link
+
+    def force(self, ex):
+        if not self.forced:
+            if self.link is not None:
+                self.link.force(ex)
+                self.value = self.link.pristine_copy()
+            else:
+                self.value = self.thunk(ex)
+                from .contracts import deep_copy
+                snap = deep_copy(self.value, {})
+                self.pristine = lambda: snap
+            self.forced = True
+        return self.value
+
+    def pristine_copy(self):
+        return self.pristine() if self.pristine is not None else self.value
+
+
+def force(ex, v):
+    return v.force(ex) if isinstance(v, LazyVal) else v
